@@ -783,13 +783,15 @@ impl Part for PlainText {
             // program: a loop and a condition written once with line statements, once with block
             // tags that occupy whole lines (trim_blocks/lstrip_blocks make a block tag "occupy its line")
             let body_lines: Vec<String> = (0..n).map(|i| format!("  item {vs} q {ve} {}", i)).collect();
+            // `gap`: what follows the line of each statement - nothing, an empty line, a blank line
+            for gap in ["", "\n", " \n"] {
             let with_lines = format!(
-                "head\n#! for q in [1, 2]\n{}\n  #! if q == 1   \nfirst ## trailing comment\n#! endif\n#! endfor\ntail\n",
+                "head\n#! for q in [1, 2]\n{gap}{}\n  #! if q == 1   \n{gap}first ## trailing comment\n#! endif\n{gap}#! endfor\n{gap}tail\n",
                 body_lines.join("\n")
             );
             let (cs, ce) = (&syntax.comment_start, &syntax.comment_end);
             let with_tags = format!(
-                "head\n{bs} for q in [1, 2] {be}\n{}\n  {bs} if q == 1 {be}\nfirst {cs} trailing comment {ce}\n{bs} endif {be}\n{bs} endfor {be}\ntail\n",
+                "head\n{bs} for q in [1, 2] {be}\n{gap}{}\n  {bs} if q == 1 {be}\n{gap}first {cs} trailing comment {ce}\n{bs} endif {be}\n{gap}{bs} endfor {be}\n{gap}tail\n",
                 body_lines.join("\n")
             );
             // both line-ending styles
@@ -799,6 +801,11 @@ impl Part for PlainText {
             } else {
                 (with_lines.clone(), with_tags.clone())
             };
+            // the line-statement form under every trim_blocks / lstrip_blocks setting (neither
+            // names a line statement: it has no block tag to act on)
+            for flags in 0..4u8 {
+            env.set_trim_blocks(flags & 1 != 0);
+            env.set_lstrip_blocks(flags & 2 != 0);
             let a = env.render_named_str("t.txt", &with_lines, ());
             let mut env2 = Environment::new();
             let mut plain = syntax.clone();
@@ -814,11 +821,13 @@ impl Part for PlainText {
                     if x != y {
                         v.set_fail(
                             "line_statement_differs_from_block_tag",
-                            format!("line statements render {x:?}, whole-line block tags render {y:?}\nsources: {with_lines:?} / {with_tags:?}"),
+                            format!("line statements (trim_blocks={}, lstrip_blocks={}) render {x:?}, whole-line block tags render {y:?}\nsources: {with_lines:?} / {with_tags:?}", flags & 1 != 0, flags & 2 != 0),
                         );
                     }
                 }
                 (x, y) => v.set_fail("line_statement_error", format!("{x:?} / {y:?}")),
+            }
+            }
             }
             }
         }
